@@ -30,7 +30,8 @@
                      observed nth_element result, observed candidate list). *)
 From Coq Require Import List ZArith Bool Lia Permutation Sorted.
 From TK Require Import Knn_Spec Knn_Brute_Model Knn_Brute_Proof Knn_VpTree_Model Knn_VpTree_Proof
-                       Knn_CoverSel_Model Knn_CoverSel_Proof CoverTree_Model CoverTree_Proof Knn_CoverQuery_Proof.
+                       Knn_CoverSel_Model Knn_CoverSel_Proof CoverTree_Model CoverTree_Proof CoverTree_Proof_Total
+                       Knn_CoverQuery_Proof.
 Import ListNotations.
 Local Open Scope Z_scope.
 
@@ -347,3 +348,18 @@ Proof.
   eexists. split; [vm_compute; reflexivity|]. split; [|split; vm_compute; reflexivity].
   cbn. tauto.
 Qed.
+
+(* the model query answers for every sample exactly once, whatever the distance function and the audit *)
+Theorem ct_query_rows : forall d K au fuel top rows ok,
+  ct_query d K au fuel top = Some (rows, ok) -> Permutation (map fst rows) (leaf_points top).
+Proof. exact ct_query_rows_lemma. Qed.
+Print Assumptions ct_query_rows.
+
+(* ... and with fuel ct_fuel top it never runs out of fuel and never dereferences the children of a leaf *)
+Theorem ct_query_total : forall d K au top,
+  leaf100_b top = true -> ct_query d K au (ct_fuel top) top <> None.
+Proof. exact ct_query_total_lemma. Qed.
+Print Assumptions ct_query_total.
+
+Example ct_query_total_nonvacuous : leaf100_b grid9_ctree = true.
+Proof. vm_compute. reflexivity. Qed.
